@@ -1,0 +1,37 @@
+/**
+ * @file verif_hooks.h
+ * Observation hooks for external verification tooling.
+ * Everything in here is compiled only with -DUNCRUSTIFY_VERIF and does
+ * nothing unless the corresponding environment variable names a file.
+ *
+ * @license GPL v2+
+ */
+#ifndef VERIF_HOOKS_H_INCLUDED
+#define VERIF_HOOKS_H_INCLUDED
+
+#ifdef UNCRUSTIFY_VERIF
+
+#include "chunk.h"
+
+/**
+ * Appends the current chunk list to the file named by environment variable
+ * 'envvar' (one line per chunk, tab separated, text in hex), preceded by a
+ * line "=== <stage>".
+ */
+void verif_dump_chunks(const char *envvar, const char *stage);
+
+
+//! remembers the last rule string given to log_rule() (UNC_VERIF_SPACE)
+void verif_note_rule(const char *rule);
+
+
+//! true while space_text() asks for a decision (other callers are alignment helpers)
+extern bool verif_space_in_space_text;
+
+
+//! appends one record per decided token pair to the file named by UNC_VERIF_SPACE
+void verif_note_space(Chunk *first, Chunk *second, int av_raw, int av, int min_sp);
+
+#endif /* UNCRUSTIFY_VERIF */
+
+#endif /* VERIF_HOOKS_H_INCLUDED */
